@@ -17,14 +17,15 @@ import (
 )
 
 type SpecEnv struct {
-	fc      *fnCtx
-	st      *State
-	old     *State
-	vars    map[string]Val
-	oldVars map[string]Val
-	bound   map[string]Val
-	pkg     *ssa.Package
-	lets    map[string]ast.Expr
+	fc       *fnCtx
+	st       *State
+	old      *State
+	vars     map[string]Val
+	oldVars  map[string]Val
+	bound    map[string]Val
+	pkg      *ssa.Package
+	lets     map[string]ast.Expr
+	letCache *map[string]Val
 	// ghost resolves names of callee locals used in ensures clauses (final values in the
 	// callee, fresh existential witnesses at call sites)
 	ghost func(name string) (Val, bool)
@@ -35,6 +36,8 @@ type SpecEnv struct {
 func (e *SpecEnv) goal(x ast.Expr) (string, error) {
 	n := *e
 	n.pol = 1
+	lc := map[string]Val{}
+	n.letCache = &lc
 	e.fc.top.curSkolems = nil
 	var sides []string
 	saved := e.fc.top.specSides
@@ -51,6 +54,8 @@ func (e *SpecEnv) goal(x ast.Expr) (string, error) {
 func (e *SpecEnv) assumption(x ast.Expr) (string, error) {
 	n := *e
 	n.pol = -1
+	lc := map[string]Val{}
+	n.letCache = &lc
 	var sides []string
 	saved := e.fc.top.specSides
 	e.fc.top.specSides = &sides
@@ -408,7 +413,23 @@ func (e *SpecEnv) evalIdent(name string) (Val, error) {
 		return v, nil
 	}
 	if ex, ok := e.lets[name]; ok {
-		return e.eval(ex)
+		key := fmt.Sprintf("%s@%p/%d", name, e.st, len(e.bound))
+		if e.letCache != nil {
+			if v, ok := (*e.letCache)[key]; ok {
+				return v, nil
+			}
+		}
+		v, err := e.withPol(0).eval(ex)
+		if err != nil {
+			return Val{}, err
+		}
+		if v.T != "" && v.Ty != nil && v.Const == nil && len(e.bound) == 0 {
+			v.T = e.fc.defs.Define("let."+name, e.fc.S().SortOf(v.Ty), v.T)
+			if e.letCache != nil {
+				(*e.letCache)[key] = v
+			}
+		}
+		return v, nil
 	}
 	if v, ok := e.vars[name]; ok {
 		return v, nil
